@@ -3,7 +3,9 @@ SPEC = {
     "drivers": [{"pkg": "internal/corerad", "test": "TestVerifC09", "newgo": True, "timeout": 1500},
                 # the real socket set up by dialNDP on a veth pair (root only): the hop limit of a received message reaches
                 # the listener through the control message; only RS / RA pass the ICMPv6 filter
-                {"pkg": "internal/system", "test": "TestVerifRealOS", "newgo": True, "timeout": 300}],
+                {"pkg": "internal/system", "test": "TestVerifRealOS", "newgo": True, "timeout": 300},
+                # real parallelism: listeners of several interfaces sharing one Context under floods of invalid messages
+                {"pkg": "internal/corerad", "test": "TestVerifParallel", "newgo": True, "timeout": 600, "arch386": []}],
     "extra_corr_modules": ["Corr.C06"],
     "rule": "scripted Conn.ReadFrom sequences fed to the real Advertiser.Run and Monitor.Run under testing/synctest: all 256 hop "
             "limits; runs of 1..12 consecutive invalid messages of each of the 4 NDP types (beyond the 5-retry budget) followed by "
